@@ -54,9 +54,11 @@ QuickRoots ==
       B("Quotient", A, L), B("Quotient", a, A), B("Power", A, L), Call(f, << A >>),
       Call(f, << A, L >>), B("Sub", x, T(<< A >>)), B("Sub", L, L), B("Sub", x, T(<< L, L >>)),
       Cmp(A, "<", L), IfE(a, A, L), IfE(Cmp(a, "<", b), L, b), a,
-      Call(f, << L, S(<< >>), L >>) }
+      Call(f, << L, S(<< >>), L >>),
+      \* several free variables in one sum; the shape of the repository's own deepest test
+      S(<< L, L, L, a >>), Call(f, << S(<< L, L >>), Call(f, << S(<< a, L >>) >>) >>) }
 ThoroughRoots ==
-    { S(<< A, M >>), S(<< M, L, L >>), S(<< L, L, L, L >>), S(<< M, M, a >>), S(<< A >>),
+    { S(<< A, M >>), S(<< M, L, L >>), S(<< L, L, L, a >>), S(<< M, M, a >>), S(<< A >>),
       P(<< A, M >>), P(<< L, M, L >>), P(<< M, M, b >>),
       B("Quotient", A, L), B("Quotient", L, M), B("Power", M, L), B("FloorDiv", M, L),
       B("Remainder", L, M), B("LShift", M, L), Call(f, << A >>), Call(f, << M, L >>),
